@@ -94,7 +94,7 @@ def showRef (bs : List UInt8) : String :=
   let r := Scan.tokensP bs
   let unit : List Spec.MacroRef.PTok :=
     r.1.map (fun t => ⟨t.kind, t.lit, t.space⟩) ++ (match r.2 with | none => [] | some _ => [⟨.TNONE, none, false⟩])
-  let o := Spec.MacroRef.expandUnit 200000 unit
+  let o := Spec.MacroRef.expandUnit 50000 unit
   let toks := o.toks.map fun t => showTok (PP.toKeyword ⟨t.kind, t.lit, t.space, false⟩)
   let e := match o.err with | none => "" | some e => " !" ++ refErr e
   let fl := o.flags.eraseDups
